@@ -163,6 +163,19 @@ def sorted_before(fn, cfg, local, block):
             else:
                 break
         if l == local and cfg.dominates(bi, block):
+            name = t[1].get("def") or ""
+            inst = t[1].get("inst") or ""
+            if re.search(r"sort(_unstable)?_by_key|sort_by_cached_key", name):
+                # a key that is only a projection of the element leaves ties in their previous (hash) order
+                m = re.search(r"sort(?:_unstable)?_by(?:_cached)?_key::<(.*), \{closure", inst) or re.search(r"sort(?:_unstable)?_by(?:_cached)?_key::<([^,>]+)", inst)
+                elem = re.search(r"<impl \[(.*)\]>::sort", inst)
+                kty = m.group(1).strip() if m else None
+                ety = elem.group(1).strip().lstrip("&") if elem else None
+                if kty is not None and ety is not None and kty.lstrip("&") != ety:
+                    return ("partial", kty, ety)
+                return True
+            if re.search(r"sort(_unstable)?_by$", name):
+                return ("comparator",)
             return True
     return False
 
@@ -295,8 +308,15 @@ def run(ctx, chk):
                     line = f["blocks"][nb]["term"]["line"]
                     if not observable:
                         chk.ok("C19.R3", f"{unit}@bb{head}", "vector collected from a hash container: loop body neither prints nor formats")
-                    elif sorted_before(f, cfg, local, head):
-                        chk.ok("C19.R3", f"{unit}@bb{head}", "vector collected from a hash container is sorted before the reporting loop: order fixed by the keys")
+                    elif sorted_before(f, cfg, local, head) is True:
+                        chk.ok("C19.R3", f"{unit}@bb{head}", "vector collected from a hash container is sorted (total order on the elements) before the reporting loop")
+                    elif isinstance(sorted_before(f, cfg, local, head), tuple) and sorted_before(f, cfg, local, head)[0] == "partial":
+                        _, kty, ety = sorted_before(f, cfg, local, head)
+                        chk.violation("C19.R3", unit, "hash-order-output:sorted-by-partial-key",
+                                      f"{f['name']} sorts the vector collected from a hash container by a key of type {kty}, which is only part of the element ({ety}): "
+                                      f"elements with equal keys keep their per-process random order, and the first one reported differs from run to run", f"{file}:{line}")
+                    elif isinstance(sorted_before(f, cfg, local, head), tuple):
+                        chk.undecided_("C19.R3", f"{unit}@bb{head}", "sorted with a custom comparator: totality of the order not decided")
                     else:
                         chk.violation("C19.R3", unit, "hash-order-output:collected-unsorted",
                                       f"{f['name']} collects a hash container into a vector and reports from it without sorting: the order is still the per-process random hash order",
